@@ -20,16 +20,25 @@ LEVEL = "other"
 FE = "freeEnergy:FreeEnergy"
 
 
+def _parts(x: ast.Assign) -> list:
+    """the (list, new element) pair of `L = np.concatenate((L, [v]), axis=0)` (the canonical form of np.append(L, [v], axis=0))"""
+    return list(x.value.args[0].elts)
+
+
+def _is_append(x: ast.AST) -> bool:
+    return (isinstance(x, ast.Assign) and isinstance(x.value, ast.Call) and n(x.value.func) == "np.concatenate" and x.value.args
+            and isinstance(x.value.args[0], ast.Tuple) and len(x.value.args[0].elts) == 2 and n(x.value.args[0].elts[0]) == n(x.targets[0]))
+
+
 def rules(chk: Check) -> None:
     S = chk.src
     fi = S.func(f"{FE}.tracePhase")
     chk.touch(fi.name)
     g = CFG(fi.node)
     steps = [x for x in g.nodes if isinstance(x, ast.Expr) and n(x.value) == "ode.step()"]
-    appends = [x for x in g.nodes if isinstance(x, ast.Assign) and isinstance(x.value, ast.Call) and n(x.value.func) == "np.append"
-               and n(x.targets[0]) in ("TList", "fieldList", "potentialEffList")]
+    appends = [x for x in g.nodes if _is_append(x) and n(x.targets[0]) in ("TList", "fieldList", "potentialEffList")]
     if len(steps) != 1 or len(appends) != 3:
-        raise AnchorMissing("tracePhase: ode.step() / the three np.append calls not found")
+        raise AnchorMissing("tracePhase: ode.step() / the three appends (np.append == np.concatenate of a pair) to the recorded lists not found")
     spin_tests = [t for t in g.nodes if g.kind.get(t) == "test" and "spinodalEvent(ode.t, ode.y)" in n(t)]
     size_tests = [t for t in g.nodes if g.kind.get(t) == "test" and "ode.step_size <" in n(t) and "T0" in n(t) and "startingTemperature" not in n(t)]
     ok = len(spin_tests) == 1 and all(g.must_pass(steps[0], a, lambda q: q in spin_tests) for a in appends)
@@ -58,7 +67,7 @@ def rules(chk: Check) -> None:
            key="defaults")
     # ---- R11.2
     want = {"TList": "[ode.t]", "fieldList": "[ode.y]", "potentialEffList": "[potentialEffT]"}
-    ok = all(n(x.value.args[0]) == n(x.targets[0]) and n(x.value.args[1]) == want[n(x.targets[0])] for x in appends)
+    ok = all(n(_parts(x)[0]) == n(x.targets[0]) and n(_parts(x)[1]) == want[n(x.targets[0])] for x in appends)
     chk.ob("R11.2", fi.where(), "the recorded triple is (ode.t, ode.y, potentialEffT), each appended to its own list", ok, key="triple")
     kinds = []
     okp = True
@@ -66,8 +75,7 @@ def rules(chk: Check) -> None:
     for par in (True, False):
         # `paranoid` selects one of two complementary blocks: analyse each setting on its own (no infeasible paths)
         gs = CFG(specialise(fi.node, "paranoid", par))
-        pa = [x for x in gs.nodes if isinstance(x, ast.Assign) and isinstance(x.value, ast.Call) and n(x.value.func) == "np.append"
-              and n(x.targets[0]) == "potentialEffList"][0]
+        pa = [x for x in gs.nodes if _is_append(x) and n(x.targets[0]) == "potentialEffList"][0]
         rd = gs.reaching_defs(pa, "potentialEffT")
         nd += len(rd)
         for d in rd:
